@@ -132,13 +132,13 @@ Proof.
     split; [reflexivity|]. cbn [map d3b fst snd]. now rewrite Em.
 Qed.
 
-(* tt_to_tensor: entry idx = (G_1[:, i_1, :] ... G_N[:, i_N, :])[0, 0] *)
+(* tt_to_tensor_raw: entry idx = (G_1[:, i_1, :] ... G_N[:, i_N, :])[0, 0] *)
 Theorem tt_to_tensor_spec cs ns : cs <> [] -> tt_cores 1 cs ns 1 -> 0 < prod ns ->
-  exists t, tt_to_tensor Op cs = Ok t /\ shape t = ns /\
+  exists t, tt_to_tensor_raw Op cs = Ok t /\ shape t = ns /\
     forall idx, inb ns idx -> get zero t idx = chain cs idx 0 0.
 Proof.
   intros Hne Hc Hpos. destruct (all_shape3_tt _ _ _ _ Hc) as (ds & Eds & Ens).
-  unfold tt_to_tensor. destruct cs as [|fa rest]; [congruence|]. rewrite Eds. cbn [rbind]. rewrite Ens.
+  unfold tt_to_tensor_raw. destruct cs as [|fa rest]; [congruence|]. rewrite Eds. cbn [rbind]. rewrite Ens.
   inversion Hc as [|? n r1 ? ? ns' ? Hfa Hr1 Hrest]; subst. cbn [hd].
   match goal with H : _ :: _ = map d3b ds |- _ => rewrite <- H in Hpos end.
   assert (Hn : n <> 0) by (simpl in Hpos; nia).
